@@ -78,9 +78,14 @@ def nest(path, stmt, counter=[0]):
 
 # project used by C02: package tree with modules to import
 C02_FILES = {
-    "__init__.py": "", "a/__init__.py": "", "a/m.py": "X = 1\n", "a/n.py": "", "a/sub/__init__.py": "", "a/sub/deep.py": "def fn(): pass\n",
-    "b/__init__.py": "", "b/k.py": "", "c.py": "", "pkg/__init__.py": "", "pkg/inner/__init__.py": "", "pkg/inner/leaf.py": "", "pkg/side.py": "",
+    "__init__.py": "", "a/__init__.py": "", "a/m.py": "X = 1\nfrom . import n\nfrom ..b import k\n", "a/n.py": "", "a/sub/__init__.py": "from . import deep\n",
+    "a/sub/deep.py": "def fn(): pass\nfrom .. import m\n",
+    "b/__init__.py": "", "b/k.py": "", "c.py": "", "pkg/__init__.py": "", "pkg/inner/__init__.py": "", "pkg/inner/leaf.py": "", "pkg/side.py": "from .inner import leaf\n",
+    "ns/plain.py": "", "ns/deeper/mod.py": "",     # namespace packages: directories without __init__.py
 }
+# edges the fixed files contribute themselves (independent of the generated user file)
+C02_FIXED_EDGES = {("proj.a.m", "proj.a.n"), ("proj.a.m", "proj.b.k"), ("proj.a.sub.__init__", "proj.a.sub.deep"), ("proj.a.sub.deep", "proj.a.m"),
+                   ("proj.pkg.side", "proj.pkg.inner.leaf")}
 # import forms: (statement in file proj/pkg/inner/user.py (or __init__), expected importees as dotted names; None entries: claim-free)
 IMPORT_FORMS = [
     ("import proj.a.m", ["proj.a.m"]),
@@ -102,6 +107,11 @@ IMPORT_FORMS = [
     ("from ...a.sub import deep", ["proj.a.sub.deep"]),
     ("from ...b.k import y", ["proj.b.k"]),
     ("from .leaf import *", ["proj.pkg.inner.leaf"]),
+    ("from proj import ns", ["proj.ns"]),                        # a namespace package is a scanned module too
+    ("from proj.ns import plain", ["proj.ns.plain"]),
+    ("from proj.ns import deeper", ["proj.ns.deeper"]),
+    ("from ...ns.deeper import mod", ["proj.ns.deeper.mod"]),
+    ("import proj.ns.deeper.mod", ["proj.ns.deeper.mod"]),
 ]
 
 
@@ -111,8 +121,12 @@ def _internal_imports(arch, importer):
     return {b for (a, b) in imps if a == importer and b not in own_ancestors}
 
 
+_C02_SCANS = [0]
+
+
 def _c02_case(args):
     path, stmt, expected, in_init = args
+    _C02_SCANS[0] += 1
     user = "pkg/inner/__init__.py" if in_init else "pkg/inner/user.py"
     importer = "proj.pkg.inner.__init__" if in_init else "proj.pkg.inner.user"
     files = dict(C02_FILES)
@@ -124,7 +138,11 @@ def _c02_case(args):
     with temp_project(files, ROOT) as root:
         arch = scan(root)
         got = _internal_imports(arch, importer)
+        all_edges = {(a, b) for a, b in arch_snapshot(arch)[1] if a != importer and b not in parents(a)}
     want = {e for e in expected if e not in set(parents(importer))}
+    if all_edges != C02_FIXED_EDGES:
+        return dict(violation=dict(case="import-edges", detail=f"edges of the fixed project files differ (scan #{_C02_SCANS[0]} in this process): missing {sorted(C02_FIXED_EDGES - all_edges)}, "
+                                   f"unaccounted {sorted(all_edges - C02_FIXED_EDGES)}", input=dict(kind="c02", path=[list(p) for p in path], stmt=stmt, expected=expected, in_init=in_init)))
     if got != want:
         return dict(violation=dict(case="import-edges", detail=f"statement {stmt!r} at position {['.'.join(p) for p in path] or 'module level'} in {user}: edges from {importer} to {sorted(got)}, "
                                    f"the statement names {sorted(want)} (missing {sorted(want - got)}, unaccounted {sorted(got - want)})",
@@ -323,6 +341,51 @@ def _c04_relative_spelling(seed):
     return out
 
 
+def _c04_sibling_scans(seed):
+    """Sibling sub-directories scanned one after the other in the same process (every order), each containing the same
+    prefix-less absolute import: every scan must equal the restriction of the whole-root scan."""
+    rng = random.Random(seed)
+    files = {"__init__.py": "", "app/__init__.py": "", "app/main.py": "import app.util\nimport proj.app.util\nimport tools.cli\n", "app/util.py": "",
+             "tools/__init__.py": "", "tools/cli.py": "import app.util\nimport tools.helpers\n", "tools/helpers.py": "import app.main\n",
+             "core/__init__.py": "import core.engine\n", "core/engine.py": "from proj.core import VERSION\nimport app.util\nfrom core import engine2\n", "core/engine2.py": ""}
+    out = []
+    with temp_project(files, ROOT) as root:
+        whole = arch_snapshot(scan(root))
+        subs = ["app", "tools", "core"]
+        for order in itertools.permutations(subs):
+            for d in order + order[:1]:
+                sm, si, _ = arch_snapshot(scan(root, os.path.join(root, d)))
+                dn = modname(d)
+                inside = lambda m: m == dn or m.startswith(dn + ".")
+                want_m = {m for m in whole[0] if inside(m)} | set(parents(dn))
+                # imports written relative to module_path's parent ('app.util' inside proj/app) resolve like the fully qualified spelling
+                want_i = set()
+                for f, src in files.items():
+                    if f.endswith(".py") and inside(modname(f)):
+                        for line in src.split("\n"):
+                            tgt = None
+                            if line.startswith("import "):
+                                tgt = line.split()[1]
+                            elif line.startswith("from ") and " import " in line:
+                                base, name = line.split()[1], line.split()[3]
+                                for cand in (f"{base}.{name}", base):
+                                    full = cand if cand.startswith(ROOT + ".") else f"{ROOT}.{cand}"
+                                    if full in whole[0]:
+                                        tgt = cand
+                                        break
+                            if tgt is None:
+                                continue
+                            full = tgt if tgt.startswith(ROOT + ".") or tgt == ROOT else f"{ROOT}.{tgt}"
+                            if inside(full) and full in whole[0] and full != modname(f) and full not in parents(modname(f)):
+                                want_i.add((modname(f), full))
+                got_i = {(a, c) for a, c in si if c not in parents(a)}
+                if sm != want_m or got_i != want_i:
+                    out.append(dict(case="sibling-scans", detail=f"scan order {order}, module_path={d}: modules differ by {sorted(sm ^ want_m)}, imports missing {sorted(want_i - got_i)} extra {sorted(got_i - want_i)}",
+                                    input=dict(kind="c04-sib", seed=seed)))
+                    return out
+    return out
+
+
 def _c04_module_objects(seed):
     """The module-object entry point builds the same architecture as the path entry point."""
     import importlib
@@ -371,13 +434,14 @@ def bounded_tree_mirror(tier, seed):
     n = 40 if tier == "quick" else 400
     _run_cases(b, _c04_case, [seed * 100003 + i for i in range(n)])
     _run_cases(b, _c04_relative_spelling, [seed * 7 + i for i in range(4)])
+    _run_cases(b, _c04_sibling_scans, [seed])
     _run_cases(b, _c04_module_objects, [seed % 1000])
     b.samples.append(dict(tree=sorted(random_tree(random.Random(seed)))[:8]))
     return b.result()
 
 
 def rerun_c04(inp):
-    fn = {"c04": _c04_case, "c04-rel": _c04_relative_spelling, "c04-obj": _c04_module_objects}[inp["kind"]]
+    fn = {"c04": _c04_case, "c04-rel": _c04_relative_spelling, "c04-obj": _c04_module_objects, "c04-sib": _c04_sibling_scans}[inp["kind"]]
     res = fn(inp["seed"])
     return (not res), ("; ".join(v["detail"] for v in res) or "scan mirrors the tree")
 
@@ -469,6 +533,30 @@ def _c08_case(seed):
     return out
 
 
+def _c08_entry_patterns(seed):
+    """Patterns with doubled / inner markers through the public entry point: same result as the reference regex of the glob semantics."""
+    files = {"__init__.py": "", "gen/__init__.py": "", "gen/a.py": "", "codegen/__init__.py": "", "codegen/b.py": "", "*gen/__init__.py": "", "*gen/c.py": "",
+             "util/__init__.py": "", "utility.py": "", "util*/__init__.py": "", "util*/d.py": "", "x.py": "import proj.gen.a\nimport proj.codegen.b\n"}
+    out = []
+    with temp_project(files, ROOT) as root:
+        for pat in ("**gen", "*gen", "*util**", "*util*", "**", "*", "*/gen", "*/*gen", "*/util*", "*/util**", root + "/*gen", root + "/**gen", root + "/util*", root + "/util**", "*/x.py", "*x.py*"):
+            s_, e_ = pat.startswith("*"), pat.endswith("*")
+            mid = pat[(1 if s_ else 0):(len(pat) - 1 if e_ else len(pat))]
+            rx = (".*" if s_ else "") + re.escape(mid) + (".*" if e_ else "$")
+            try:
+                a = arch_snapshot(scan(root, exclusions=(pat,)))
+            except Exception as ex:
+                a = ("error", type(ex).__name__)
+            try:
+                b_ = arch_snapshot(scan(root, exclusions=(), regex_exclusions=(rx,)))
+            except Exception as ex:
+                b_ = ("error", type(ex).__name__)
+            if a != b_:
+                diff = sorted(a[0] ^ b_[0])[:6] if a[0] != "error" and b_[0] != "error" else (a[:2], b_[:2])
+                out.append(dict(case="entry-glob", detail=f"exclusions=({pat!r},) differs from the regex of its glob meaning {rx!r}: {diff}", input=dict(kind="c08-entry", seed=seed)))
+    return out[:3]
+
+
 def bounded_exclusions(tier, seed):
     b = Bounded("C08.exclusions-remove-exactly-matching-paths", "glob->regex conversion: ALL patterns over the alphabet {a . * +} up to length 4 (quick) / 5 (thorough) x all texts up to length 4 "
                 "(exhaustive); 24/240 random project trees with names containing regex metacharacters and siblings sharing a prefix, per tree 3 patterns from the four glob shapes built from the "
@@ -484,10 +572,14 @@ def bounded_exclusions(tier, seed):
             b.violation(v["case"], v["detail"], v["input"])
     b.samples.append(dict(pattern="*a.+", text="xa.+"))
     _run_cases(b, _c08_case, [seed * 100003 + i for i in range(24 if tier == "quick" else 240)])
+    _run_cases(b, _c08_entry_patterns, [seed])
     return b.result()
 
 
 def rerun_c08(inp):
+    if inp["kind"] == "c08-entry":
+        res = _c08_entry_patterns(inp["seed"])
+        return (not res), ("; ".join(v["detail"] for v in res) or "glob exclusions equal their regex meaning")
     if inp["kind"] == "glob":
         from pytestarch.utils.partial_match_to_regex_converter import convert_partial_match_to_regex
         rx = convert_partial_match_to_regex(inp["pattern"])
@@ -582,7 +674,10 @@ def _c10_case(seed):
     files["handlers.py"] = ""
     files["core/__init__.py"] = ""
     files["core/handlers.py"] = "import proj.handlers\n"
-    files["core/m.py"] = "import proj.core.handlers\n"
+    files["core/m.py"] = "import proj.core.handlers\nimport proj.core_plugins.builtin.x\nfrom . import handlers\n"
+    files["core_plugins/__init__.py"] = ""
+    files["core_plugins/builtin/__init__.py"] = ""
+    files["core_plugins/builtin/x.py"] = "from .. import builtin\n"
     ext_edges = set()
     add_imports(files, rng, rng.randint(6, 14), externals=EXTERNALS)
     edges = edges_of(files)
@@ -605,8 +700,13 @@ def _c10_case(seed):
                 s, e = pat.startswith("*"), pat.endswith("*")
                 mid = pat[(1 if s else 0):(len(pat) - 1 if e else len(pat))]
                 configs.append(dict(exclude_external_libraries=False, regex_external_exclusions=((".*" if s else "") + re.escape(mid) + (".*" if e else "$"),)))
-            for kw in configs:
+            for kw in configs + [dict()]:
                 got = arch_snapshot(scan(root, mp, **kw))
+                if not kw:
+                    # the default scan repeated after the include-mode scans in the same process
+                    if got != ref:
+                        out.append(dict(case="repeat", detail=f"module_path={sub or '.'}: the default scan repeated after include-mode scans differs: modules {sorted(got[0] ^ ref[0])[:5]} imports {sorted(got[1] ^ ref[1])[:5]}", input=inp))
+                    continue
                 g_int_mods = {m for m in got[0] if internal(m)}
                 g_int_imps = {(a, c) for a, c in got[1] if internal(a) and internal(c)}
                 if g_int_mods != int_mods or g_int_imps != int_imps:
